@@ -53,7 +53,7 @@ CHECKS['C13'] = dict(
     level='exploration', design='DESIGN.md 4/C13',
     text='Single-replica observables of length 5..60 (500 thorough) with every list kind and data kind; Hypothesis-drawn bootstrap tables (any table for export, '
          'full-column-rank by construction for import, too few samples must raise); default seeding checked through the saved table, repeated calls, a second '
-         'observable of the same chain and of the same chain name with another length in the same process.',
+         'observable of the same chain and of the same chain name with another length in the same process. S=0 requested by argument / dictionary / global, chains in units of 1e-30..1e25, resampling tables in other memory layouts, returned arrays owned by the caller, the name-seeded table reproduced by a child interpreter with another hash salt.',
     note='The definition of the resampled means is recomputed independently; import tolerance scales with cond of the projector.')
 
 CHECKS['C06'] = dict(
@@ -68,14 +68,14 @@ CHECKS['C09'] = dict(
     level='exploration', design='DESIGN.md 4/C09',
     text='find_root on 10 monotone families (scalar and vector d, d on different ensembles, covariance inputs, aliased inputs): value vs closed-form root, fluctuations vs '
          '-(df/dd)/(df/dx), equality with the explicit inverse applied with Obs arithmetic; integrate.quad on 15 integrand families with every subset of parameters and limits '
-         'observable (reversed, coinciding, infinite limits): value F(b)-F(a), gradient (int d_p f, -f(a), +f(b)); plain-number calls return scipy\'s tuple.',
+         'observable (reversed, coinciding, infinite limits): value F(b)-F(a), gradient (int d_p f, -f(a), +f(b)); plain-number calls return scipy\'s tuple. Root families down to roots of size 1e-8, decoy calls with the same function object before a default-start root, falsy-but-meaningful and complex_func options of quad, a two-scale integrand family.',
     note='Analytic derivatives hand-written and self-checked; quad tolerance is a multiple of QUADPACK\'s own error estimate.')
 CHECKS['C10'] = dict(
     technique='property-based testing (Hypothesis): defining matrix identities evaluated to first order in an independent reference domain (vlib/refmat.py over RefObs); independent jackknife recomputation',
     level='exploration', design='DESIGN.md 4/C10',
     text='matmul (2-4 factors, real/complex/mixed with plain numbers), inv, cholesky, det, eigh/eigv, eig, pinv, svd on well-conditioned 1x1..4x4 (rectangular) matrices with '
          'entries on different layouts; identities checked in value, every fluctuation and covariance gradient without using pyerrors arithmetic; jack_matmul / einsum against a '
-         'per-sample numpy jackknife and an explicit O(1/N) bound to the exact product.',
+         'per-sample numpy jackknife and an explicit O(1/N) bound to the exact product. Operand matrices in C / Fortran / transposed-view / slice layouts; the same array objects refilled between two jackknife products; complex Cholesky declined or correct.',
     note='Complex input only where the library documents it (matmul, inv).')
 CHECKS['C11'] = dict(
     technique='property-based testing (Hypothesis): round trips through every json transport with attribute-level comparison, jsonschema validation of every emitted document',
@@ -90,7 +90,7 @@ CHECKS['C12'] = dict(
     level='exploration', design='DESIGN.md 4/C12',
     text='Lists of 1-4 observables on subsets of one base layout (differing configuration sets, missing replicas / ensembles, covariance-only members), continuous and integer-valued '
          'data with exact zeros; dobs via bytes / str / .xml.gz / .xml, pobs files, all separator_insertion modes; central value bitwise, every configuration number, fluctuations '
-         'and replica means to 1e-14 of the sample magnitude, covariance and gradients to 2e-14, subsequent error analysis equal.',
+         'and replica means to 1e-14 of the sample magnitude, covariance and gradients to 2e-14, subsequent error analysis equal. Lists whose members carry one covariance name with different matrices (refused or each member keeps its own); lists of covariance-only observables.',
     note='F-C12-4 (sample exactly equal to the central value is the format\'s not-measured marker) is a recorded finding.')
 CHECKS['C15'] = dict(
     technique='property-based testing (Hypothesis): per-timeslice documented formulas with analytic gradients through RefObs.combine; independent bracketing root solve for cosh/sinh variants; exact undefined-set comparison',
@@ -111,7 +111,7 @@ CHECKS['C17'] = dict(
     level='exploration', design='DESIGN.md 4/C17',
     text='openQCD rwms 1.4/1.6/2.0, ms.dat flow (energy density, t0/w0, qtop), sfqcd gfms (qtop, coupling), ms5_xsf, sfcf separate / compact / appended, Hadrons hdf5 mesons; 1-3 replicas with '
          'differing digit counts, 5-40 configurations, arbitrary first configuration and spacing, all selection keywords, sorted / reversed / shuffled listings (os.walk / os.listdir proxied as seen by '
-         'the readers) and distractor files; names, configuration numbers and per-configuration numbers must equal the stored ones after the documented reduction.',
+         'the readers) and distractor files; names, configuration numbers and per-configuration numbers must equal the stored ones after the documented reduction. In a quarter of the cases the same paths first hold another data set that is read (state between calls).',
     note='Writers define the formats as readers and sample files agree on them; F-C17-4 is a recorded finding.')
 CHECKS['C18'] = dict(
     technique='fault injection by exhaustive enumeration of truncation offsets of generated files; oracle: exception or exact prefix',
@@ -130,7 +130,7 @@ CHECKS['C20'] = dict(
     technique='exhaustive enumeration of the finite tables plus property-based testing (Hypothesis) of special-function derivatives against scipy and RefObs.combine',
     level='exploration', design='DESIGN.md 4/C20',
     text='Complete: Clifford algebra / hermiticity / gamma5 for all index pairs, all 16 Grid tags (+ near-miss tags must raise), all tuples of {0..4}^3 and {0..4}^4 against the inversion-count sign '
-         '(tuples outside the domain must raise). Generated: K_n for n=-6..6 and x in (0.05,20) plain and inside composite expressions, 30 re-exported special functions inside their domains.',
+         '(tuples outside the domain must raise). Generated: K_n for n=-6..6 and x in (0.05,20) plain and inside composite expressions, 30 re-exported special functions inside their domains. Entire functions at an operand whose central value is exactly 0.0; logsumexp with weights; K_n of an array used further inside the function.',
     note='Table parts are exhaustive (EXHAUSTIVE in the module); the special-function part samples.')
 
 CHECKS['C07'] = dict(
@@ -139,14 +139,14 @@ CHECKS['C07'] = dict(
     text='Linear-basis models with 1-4 parameters, 1-2 abscissa dimensions, 1-3 data sets sharing parameters (list and dictionary call forms, independent insertion orders), data on related '
          'layouts with cross- and autocorrelation, priors as list / dict / Obs / string, correlated fits with estimated or supplied inverse Cholesky factor, LM / migrad / Nelder-Mead / Powell, '
          'autograd and num_grad, Corr.fit ranges: parameters equal (A^T W A + P)^-1 (A^T W y + P pi) in value, every fluctuation and gradient; chi-square, dof, p-value, Hotelling t2 and '
-         'chi2/chi2_exp recomputed from their definitions; permutation invariance.',
+         'chi2/chi2_exp recomputed from their definitions; permutation invariance. Fits chained in one process with identical prior strings (a parameter of the earlier fit as datum of the later) against GLS with fresh independent prior inputs.',
     note='Value tolerance is the stopping accuracy of each minimiser in units of sigma_p; fluctuations 1e-9. F-C07-1 is a recorded finding.')
 CHECKS['C08'] = dict(
     technique='property-based testing (Hypothesis): stationarity and implicit-function sensitivities from an independent second-order jet implementation (vlib/fit08.py); metamorphic finite-difference re-fits',
     level='exploration', design='DESIGN.md 4/C08',
     text='Ten smooth non-linear model families (1-4 parameters, 2-d x, combined dictionary fit) on independent / shared ensembles, correlated and uncorrelated chi-square, priors, '
          'x as numbers or observables, autograd and num_grad: Newton step of the documented chi-square vanishes at the returned values, every fluctuation equals sum_j S_kj delta(datum j) with '
-         'S = -H^-1 d(grad chi2)/d(data), shifting one datum and re-fitting moves the parameters by S (Richardson-combined quotient), TLS with negligible x errors equals LS, fit_lin dispatch.',
+         'S = -H^-1 d(grad chi2)/d(data), shifting one datum and re-fitting moves the parameters by S (Richardson-combined quotient), TLS with negligible x errors equals LS, fit_lin dispatch. Metamorphic unit change of ordinate and model (same parameters as observables); fits with 201-260 data points; a mislabelled supplied factor must raise.',
     note='H and mixed derivatives are computed by hand-written product/chain-rule jets, independent of autograd and numdifftools.')
 CHECKS['C14'] = dict(
     technique='property-based testing (Hypothesis): differential test Corr level vs Obs/CObs level per timeslice, independently written index maps, deep fingerprints for non-mutation with repeated invocation',
